@@ -20,9 +20,14 @@ type asconMode struct {
 
 var asconModes = []asconMode{{ascon.Ascon128, rascon.Ascon128}, {ascon.Ascon128a, rascon.Ascon128a}, {ascon.Ascon80pq, rascon.Ascon80pq}}
 
-// drawLen: 0..3 blocks ± 1, biased to the block boundaries.
+// drawLen: 0..3 blocks ± 1, biased to the block boundaries (1/8 of the draws: 4..8 blocks).
 func drawLen(t *rapid.T, bs int, label string) int {
-	if rapid.IntRange(0, 3).Draw(t, label+".edge") > 0 {
+	k := rapid.IntRange(0, 15).Draw(t, label+".edge")
+	if k >= 14 {
+		// beyond the quantifier's 3 blocks (and beyond the 32-byte limit of the LWC KAT files): a few longer inputs
+		return rapid.SampledFrom([]int{4*bs - 1, 4 * bs, 4*bs + 1, 5 * bs, 6*bs + 1, 8 * bs, 8*bs + 3}).Draw(t, label+".len")
+	}
+	if k >= 4 {
 		return rapid.SampledFrom([]int{0, 0, 1, bs - 1, bs, bs + 1, 2*bs - 1, 2 * bs, 2*bs + 1, 3*bs - 1, 3 * bs, 3*bs + 1}).Draw(t, label+".len")
 	}
 	return rapid.IntRange(0, 3*bs+1).Draw(t, label+".len")
